@@ -35,17 +35,10 @@ def attrsOf (ps : List (Bytes × Bytes)) : Bytes := ps.flatMap fun kv => attrSeg
 /-- what may follow the name in a start tag the serialiser writes: attributes whose keys are made of name bytes and
 whose values hold no `"` (the ` xmlns="…"` of an operation output; the attributes of a value, `attr_value`) -/
 def GoodRest (r : Bytes) : Prop :=
-  ∃ ps : List (Bytes × Bytes), r = attrsOf ps ∧ ∀ kv ∈ ps, goodName kv.1 = true ∧ ∀ c ∈ kv.2, c ≠ cQuot
+  ∃ ps : List (Bytes × Bytes), r = attrsOf ps ∧ (∀ kv ∈ ps, goodName kv.1 = true ∧ ∀ c ∈ kv.2, c ≠ cQuot) ∧
+    (ps.map (·.1)).Nodup
 
-theorem GoodRest.nil : GoodRest [] := ⟨[], rfl, fun _ h => by simp at h⟩
-
-theorem GoodRest.append {a b : Bytes} (ha : GoodRest a) (hb : GoodRest b) : GoodRest (a ++ b) := by
-  obtain ⟨pa, ha1, ha2⟩ := ha
-  obtain ⟨pb, hb1, hb2⟩ := hb
-  refine ⟨pa ++ pb, by simp [ha1, hb1, attrsOf], fun kv hkv => ?_⟩
-  rcases List.mem_append.mp hkv with h | h
-  · exact ha2 kv h
-  · exact hb2 kv h
+theorem GoodRest.nil : GoodRest [] := ⟨[], rfl, fun _ h => by simp at h, by simp⟩
 
 theorem splitAtByte_hit (x : UInt8) : ∀ (raw r : Bytes), (∀ c ∈ raw, c ≠ x) → splitAtByte x (raw ++ x :: r) = some (raw, r)
   | [], r, _ => by simp [splitAtByte]
@@ -106,7 +99,7 @@ they begin with a blank and end with a `"` -/
 theorem GoodRest.shape {r : Bytes} (h : GoodRest r) :
     (∀ X, elementEnd 0 (r ++ X) = (elementEnd 0 X).map fun (q, w) => (r ++ q, w)) ∧
     (r = [] ∨ ∃ i, r = 32 :: (i ++ [cQuot])) := by
-  obtain ⟨ps, hr, hps⟩ := h
+  obtain ⟨ps, hr, hps, -⟩ := h
   subst hr
   induction ps with
   | nil =>
@@ -398,13 +391,84 @@ theorem tokLoop_write : ∀ (evs : List Ev) (st : List Bytes) (fuel : Nat), WN s
             simp only [List.map_cons, List.cons.injEq, true_and] at ih
             simp [hne, ih, Ev.toQ]
 
+/-- an attribute name the iterator reads back as written: not empty, no `=`, no white space -/
+def keyPlain (k : Bytes) : Bool := !k.isEmpty && k.all (fun c => !(c = 61 || isWs c))
+
+
+/-- one step of the iterator over ` key="value"` followed by anything -/
+theorem attrNext_seg (k v rest : Bytes) (hk : keyPlain k = true) (hv : ∀ c ∈ v, c ≠ cQuot) :
+    attrNext (attrSeg k v ++ rest) = some (some (k, v, rest)) := by
+  cases k with
+  | nil => simp [keyPlain] at hk
+  | cons c0 kt =>
+    simp only [keyPlain, List.isEmpty_cons, Bool.not_false, Bool.true_and, List.all_cons, Bool.and_eq_true,
+      List.all_eq_true] at hk
+    obtain ⟨hc0, hkt⟩ := hk
+    have hws0 : isWs c0 = false := by
+      cases hw : isWs c0 with
+      | false => rfl
+      | true => simp [hw] at hc0
+    have hseg : attrSeg (c0 :: kt) v ++ rest = 32 :: c0 :: (kt ++ (61 :: 34 :: (v ++ 34 :: rest))) := by
+      simp [attrSeg]
+    have htw : (kt ++ (61 :: 34 :: (v ++ 34 :: rest))).takeWhile (fun c => !(c = 61 || isWs c)) = kt := by
+      rw [List.takeWhile_append_of_pos (fun c hc => hkt c hc)]
+      simp [List.takeWhile]
+    have hsplit : splitAtByte 34 (v ++ 34 :: rest) = some (v, rest) := splitAtByte_hit 34 v rest hv
+    rw [hseg]
+    unfold attrNext
+    have hdw : (32 :: c0 :: (kt ++ (61 :: 34 :: (v ++ 34 :: rest)))).dropWhile isWs
+        = c0 :: (kt ++ (61 :: 34 :: (v ++ 34 :: rest))) := by
+      rw [List.dropWhile_cons_of_pos (by decide), List.dropWhile_cons_of_neg (by simp [hws0])]
+    rw [hdw]
+    simp only [attrKeyTail, htw, List.drop_left']
+    simp [attrAfterEq, attrQuoted, List.dropWhile, isWs, cQuot, hsplit]
+
+theorem attrSeg_length_pos (k v : Bytes) : 0 < (attrSeg k v).length := by simp [attrSeg]
+
+
+theorem goodName_keyPlain {k : Bytes} (h : goodName k = true) : keyPlain k = true := by
+  simp only [goodName, Bool.and_eq_true, List.all_eq_true] at h
+  simp only [keyPlain, Bool.and_eq_true, List.all_eq_true]
+  refine ⟨h.1, fun c hc => ?_⟩
+  have hn := h.2 c hc
+  have hw := (isNameByte_facts hn).2.2.2.2.2.2.2
+  have h61 : c ≠ 61 := by intro hc'; subst hc'; revert hn; decide
+  simp [hw, h61]
+
+/-- quick-xml's attribute iterator with the duplicate check on, over what `start_of` wrote: no error when the keys
+are pairwise distinct (and differ from those seen before) -/
+theorem attrsOk_written : ∀ (ps : List (Bytes × Bytes)) (fuel : Nat) (seen : List Bytes),
+    (∀ kv ∈ ps, goodName kv.1 = true ∧ ∀ c ∈ kv.2, c ≠ cQuot) → (ps.map (·.1)).Nodup →
+    (∀ kv ∈ ps, kv.1 ∉ seen) → attrsOk fuel (attrsOf ps) seen = true
+  | _, 0, _, _, _, _ => by simp [attrsOk]
+  | [], fuel + 1, seen, _, _, _ => by simp [attrsOf, attrsOk, attrNext]
+  | kv :: ps, fuel + 1, seen, hok, hnd, hseen => by
+    obtain ⟨hk, hv⟩ := hok kv (by simp)
+    have hcons : attrsOf (kv :: ps) = attrSeg kv.1 kv.2 ++ attrsOf ps := by simp [attrsOf]
+    rw [hcons]
+    simp only [attrsOk, attrNext_seg kv.1 kv.2 _ (goodName_keyPlain hk) hv]
+    have hns : seen.contains kv.1 = false := by
+      have := hseen kv (by simp)
+      simpa using this
+    simp only [hns, Bool.false_eq_true, if_false]
+    simp only [List.map_cons, List.nodup_cons] at hnd
+    refine attrsOk_written ps fuel (kv.1 :: seen) (fun x hx => hok x (by simp [hx])) hnd.2 (fun x hx => ?_)
+    simp only [List.mem_cons, not_or]
+    refine ⟨fun he => hnd.1 (by rw [← he]; exact List.mem_map_of_mem hx), hseen x (by simp [hx])⟩
+
+/-- `check_attributes` passes every start tag the serialiser writes -/
+theorem startOk_of_goodRest {r : Bytes} (h : GoodRest r) : startOk r = true := by
+  obtain ⟨ps, hr, hps, hnd⟩ := h
+  subst hr
+  exact attrsOk_written ps _ [] hps hnd (fun _ _ => by simp)
+
 theorem deEvents_toQ : ∀ (evs : List Ev) (st : List Bytes), WN st evs → deEventsAt st.length (evs.map Ev.toQ) = evs
   | [], _, _ => by simp [deEventsAt]
   | .start n r :: t, st, h => by
     simp only [WN] at h
     have ih := deEvents_toQ t (n :: st) h.2.2
     simp only [List.length_cons] at ih
-    simp [Ev.toQ, deEventsAt, ih]
+    simp [Ev.toQ, deEventsAt, ih, startOk_of_goodRest h.2.1]
   | .stop n :: t, st, h => by
     simp only [WN] at h
     obtain ⟨_, st', hst, hw⟩ := h
